@@ -164,9 +164,9 @@ def strat(fam, max_len, n):
 
 def phases(tier):
     if tier == 'thorough':
-        return [Phase('tok', 'hypothesis', strategy=strat('tok', 16, 6), max_examples=400000),
-                Phase('ovl', 'hypothesis', strategy=strat('ovl', 14, 6), max_examples=250000),
-                Phase('re', 'hypothesis', strategy=strat('re', 14, 6), max_examples=400000)]
+        return [Phase('tok', 'hypothesis', strategy=strat('tok', 16, 6), max_examples=200000),
+                Phase('ovl', 'hypothesis', strategy=strat('ovl', 14, 6), max_examples=120000),
+                Phase('re', 'hypothesis', strategy=strat('re', 14, 6), max_examples=200000)]
     return [Phase('tok', 'hypothesis', strategy=strat('tok', 10, 4), max_examples=24000),
             Phase('ovl', 'hypothesis', strategy=strat('ovl', 10, 4), max_examples=16000),
             Phase('re', 'hypothesis', strategy=strat('re', 10, 4), max_examples=24000)]
